@@ -3,7 +3,7 @@
    This file only closes statements with proved lemmas; the instance theorems are concrete histories
    (with the observations the implementation produced for them) re-evaluated inside Coq. *)
 From Coq Require Import List NArith.
-From Proto Require Import Broker Script ProofsBasic ProofsInstances.
+From Proto Require Import Broker Script ProofsBasic ProofsInstances Props ProofsStruct.
 Import ListNotations.
 Open Scope N_scope.
 
@@ -16,3 +16,18 @@ Print Assumptions C05_refused_no_effect.
 Theorem C05_instance_c09_will_retain_server_close : run_broker [262144] h_c09_will_retain_server_close = o_c09_will_retain_server_close.
 Proof. exact ProofsInstances.inst_c09_will_retain_server_close. Qed.
 Print Assumptions C05_instance_c09_will_retain_server_close.
+
+(* bytes of a connected client close no connection but its own, whatever the bytes are *)
+Theorem C05_only_self_closed : Props.C05_only_self_closed.
+Proof. exact ProofsStruct.only_self_closed. Qed.
+Print Assumptions C05_only_self_closed.
+
+(* a first packet closes at most its own connection (and a taken-over one is not closed by the model: the code keeps it) *)
+Theorem C05_connect_only_self_closed : Props.C05_connect_only_self_closed.
+Proof. exact ProofsStruct.connect_only_self_closed. Qed.
+Print Assumptions C05_connect_only_self_closed.
+
+(* the end of a connection closes only that connection *)
+Theorem C05_stop_only_self_closed : Props.C05_stop_only_self_closed.
+Proof. exact ProofsStruct.stop_only_self_closed. Qed.
+Print Assumptions C05_stop_only_self_closed.
